@@ -60,7 +60,7 @@ NA = {
 ALL = ["C%02d" % i for i in range(1, 21)]
 # thorough tiers that were run to completion on the unchanged (repaired) tree in this session; the others have a
 # thorough tier in props/<ID>.py that was not validated for lack of time and is therefore not registered
-THOROUGH_OK = {"C02", "C06", "C07", "C08", "C14", "C16", "C18", "C19"}
+THOROUGH_OK = {"C02", "C03", "C06", "C07", "C08", "C14", "C16", "C18", "C19", "C20"}
 m = {"version": 1,
      "setup_cmd": "./setup.sh",
      "hooks": {"guard": "RTOSC_VERIF", "enable": "checks pass -DRTOSC_VERIF to cbmc/clang/gcc when they compile /repo sources; no hook is currently needed (no guarded source change in /repo)",
